@@ -474,7 +474,48 @@ def ufunc_reduce(ufunc, a, axis=0, dtype=None, out=None, keepdims=False, initial
 
 
 def ufunc_at(ufunc, a, idx, vals):
-    raise Unsupported('ufunc.at')
+    """unbuffered in-place a[idx[k]] = op(a[idx[k]], vals[k]) for k in order (1-D a, 1-D integer idx)"""
+    n = ufunc.__name__
+    if n not in ('minimum', 'maximum', 'add', 'subtract', 'multiply', 'fmin', 'fmax'):
+        raise Unsupported('%s.at' % n)
+    if not isinstance(a, SArr):
+        if _conc(idx) and _conc(vals):
+            return ufunc.at(a, _np.asarray(idx), _np.asarray(vals))
+        raise Unsupported('ufunc.at writing symbolic values into a real ndarray')
+    if a.ndim != 1 or vals is None:
+        raise Unsupported('ufunc.at on a non-1-D array / unary ufunc')
+    ix = _as_sarr(_unlazy(idx))
+    if ix.ldtype.kind not in 'iu' or ix.ndim > 1:
+        raise Unsupported('ufunc.at with a non-integer / multi-dimensional index')
+    ic = list(ix.reshape(-1).cells())
+    va = _as_sarr(_unlazy(vals))
+    vc = list(va.reshape(-1).cells()) if va.ndim else [va.reshape(-1).cells()[0]] * len(ic)
+    if len(vc) == 1 and len(ic) != 1:
+        vc = vc * len(ic)
+    if len(vc) != len(ic):
+        raise ValueError('shape mismatch: value array of shape %s could not be broadcast to indexing result' % (va.shape,))
+    L = a.shape[0]
+    raw = _raw(a)
+    for k, (i, v) in enumerate(zip(ic, vc)):
+        if isinstance(i, core.SVal):
+            ok = (i >= -L) & (i < L)
+            if not bool(ok):
+                raise IndexError('index out of bounds for axis 0 with size %d' % L)
+            i = core.ite(i < 0, i + L, i)
+            for p in range(L):
+                cur = raw[p]
+                new = ufuncs.apply_cells(ufunc, [cur, v], [a.ldtype, va.ldtype], a.ldtype)
+                raw[p] = core.ite(i == p, new, cur)
+        else:
+            p = operator.index(i)
+            if not -L <= p < L:
+                raise IndexError('index %d is out of bounds for axis 0 with size %d' % (p, L))
+            raw[p] = ufuncs.apply_cells(ufunc, [raw[p], v], [a.ldtype, va.ldtype], a.ldtype)
+    return None
+
+
+def np_flatnonzero(a):
+    return np_where(_as_sarr(_unlazy(a)).reshape(-1))[0]
 
 
 # ------------------------------------------------------------------------------------------
@@ -525,8 +566,8 @@ def np_unique(ar, return_index=False, return_inverse=False, return_counts=False,
     if _conc(ar):
         return _delegate('unique', ar, return_index=return_index, return_inverse=return_inverse,
                          return_counts=return_counts, axis=axis)
-    if return_index or return_inverse or return_counts or axis is not None:
-        raise Unsupported('unique with extra outputs on symbolic cells')
+    if axis is not None:
+        raise Unsupported('unique along an axis on symbolic cells')
     a = _as_sarr(ar)
     if a.ldtype.kind not in 'iub':
         raise Unsupported('unique on symbolic non-integer cells')
@@ -545,7 +586,37 @@ def np_unique(ar, return_index=False, return_inverse=False, return_counts=False,
     while True:
         S, ok = ctx.choice(pick, cond)
         if ok:
-            return SArr.from_typed(_np.array(S, dtype=a.ldtype))
+            u = SArr.from_typed(_np.array(S, dtype=a.ldtype))
+            if not (return_index or return_inverse or return_counts):
+                return u
+            # the distinct values are fixed on this path; the extra outputs are terms over the cells
+            outs = [u]
+            n = len(cells)
+            if return_index:
+                fi = []
+                for v in S:
+                    r = n - 1
+                    for i in range(n - 2, -1, -1):
+                        r = core.ite(core.SBool(terms[i] == v), i, r)
+                    fi.append(r)
+                outs.append(np_array(fi, dtype=_np.intp))
+            if return_inverse:
+                inv = []
+                for t in terms:
+                    r = len(S) - 1
+                    for j in range(len(S) - 2, -1, -1):
+                        r = core.ite(core.SBool(t == S[j]), j, r)
+                    inv.append(r)
+                outs.append(np_array(inv, dtype=_np.intp).reshape(a.shape))
+            if return_counts:
+                cn = []
+                for v in S:
+                    c = 0
+                    for t in terms:
+                        c = c + core.ite(core.SBool(t == v), 1, 0)
+                    cn.append(c)
+                outs.append(np_array(cn, dtype=_np.intp))
+            return tuple(outs)
 
 
 def np_concatenate(arrs, axis=0, out=None, dtype=None, **kw):
